@@ -165,7 +165,8 @@ def _make(rng, depth, force=None):
         except RecursionError:
             continue
         if _acceptable(node, xs):
-            return {"x": xs, "tree": node, "dseed": int(rng.integers(1, 2 ** 31))}
+            return {"x": xs, "tree": R.pack_tree(node),
+                    "dseed": int(rng.integers(1, 2 ** 31))}
     # fall back to something that always works
     xs = [[0.5, 1.5, 2.0]]
     return {"x": xs, "tree": {"op": "mul", "a": {"op": "var", "i": 0},
@@ -351,7 +352,7 @@ def check(case, mon):
     import porepy as pp
 
     xs = [np.asarray(x, dtype=float) for x in case["x"]]
-    tree = case["tree"]
+    tree = R.tree_of(case)
     dep = R.depth(tree)
     mon.klass(f"depth{min(dep, 7)}")
     mon.klass("root:" + _label(tree).split("[")[0])
